@@ -118,6 +118,37 @@ def _simple(e):
     return False
 
 
+_CTX = {}
+
+
+def _read_later(name, call):
+    """is `name` read in the tree of the module at a line behind the call (flow-insensitive, conservative)?"""
+    tree = _CTX.get('tree')
+    if tree is None:
+        return True
+    line = getattr(call, 'end_lineno', getattr(call, 'lineno', 0))
+    # the enclosing function of the call
+    best = None
+    for fnode in ast.walk(tree):
+        if isinstance(fnode, (ast.FunctionDef, ast.AsyncFunctionDef)) and getattr(fnode, 'lineno', 0) <= getattr(call, 'lineno', 0) <= getattr(fnode, 'end_lineno', 0):
+            if best is None or fnode.lineno >= best.lineno:
+                best = fnode
+    if best is None:
+        return True
+    inside_call = set(id(x) for x in ast.walk(call))
+    occ = sorted(((x.lineno, x.col_offset, x) for x in ast.walk(best) if isinstance(x, ast.Name) and x.id == name and id(x) not in inside_call
+                  and hasattr(x, 'lineno')), key=lambda t: t[:2])
+    # a loop around the call brings every read inside that loop behind the call
+    for lp in ast.walk(best):
+        if isinstance(lp, (ast.For, ast.While)) and any(x is call for x in ast.walk(lp)):
+            if any(isinstance(x, ast.Name) and x.id == name and isinstance(x.ctx, ast.Load) and id(x) not in inside_call for x in ast.walk(lp)):
+                return True
+    later = [x for l_, c_, x in occ if (l_, c_) > (line, getattr(call, 'end_col_offset', 0))]
+    # the first occurrence behind the call decides: a store means the caller's value is dead at the call
+    aug = set(id(x.target) for x in ast.walk(best) if isinstance(x, ast.AugAssign))
+    return bool(later) and (isinstance(later[0].ctx, ast.Load) or id(later[0]) in aug)
+
+
 def _bind(fn, kind, call):
     """-> (prefix statements, substitution mapping) or None"""
     params = [x.arg for x in fn.args.args]
@@ -145,8 +176,9 @@ def _bind(fn, kind, call):
     prefix, mapping = [], {}
     for p in params:
         a = given[p]
-        if isinstance(a, ast.Name) and a.id == p and p in assigned:
-            # the helper re-binds its parameter: that must not reach the caller's variable of the same name
+        if isinstance(a, ast.Name) and a.id == p and p in assigned and _read_later(p, call) and p not in _CTX.get('targets', ()):
+            # the helper re-binds its parameter: that must not reach the caller's variable of the same name (when the caller still
+            # reads it afterwards and does not itself assign the helper's result to it)
             fresh = '%s_%s' % (p, fn.name.strip('_'))
             prefix.append(ast.Assign(targets=[ast.Name(id=fresh, ctx=ast.Store())], value=copy.deepcopy(a)))
             mapping[p] = _Renamed(fresh)
@@ -468,6 +500,7 @@ def _stmt_lists(tree):
 def expand(module_name, tree):
     """Expand the new helpers of the module in place.  Returns [(helper key, number of call sites expanded, FunctionDef)]."""
     done = []
+    _CTX['tree'] = tree
     for _ in range(3):
         changed = False
         for key, fn, outer in _new_helpers(module_name, tree):
@@ -535,7 +568,11 @@ def expand(module_name, tree):
                     if isinstance(st, ast.Expr) and _is_call_of(st.value, fn, kind):
                         new = _expand(fn, kind, st.value, 'expr')
                     elif isinstance(st, ast.Assign) and _is_call_of(st.value, fn, kind):
-                        new = _expand(fn, kind, st.value, 'assign', st.targets)
+                        _CTX['targets'] = set(x.id for t_ in st.targets for x in ast.walk(t_) if isinstance(x, ast.Name))
+                        try:
+                            new = _expand(fn, kind, st.value, 'assign', st.targets)
+                        finally:
+                            _CTX['targets'] = ()
                     elif isinstance(st, ast.Return) and st.value is not None and _is_call_of(st.value, fn, kind):
                         new = _expand(fn, kind, st.value, 'return')
                     elif isinstance(st, ast.If) and not single and (_is_call_of(st.test, fn, kind) or (
